@@ -3,6 +3,7 @@ pub mod c01;
 pub mod c02;
 pub mod c03;
 pub mod dissect;
+pub mod fuzzcfg;
 pub mod c04;
 pub mod c06;
 pub mod c17;
@@ -14,6 +15,12 @@ pub mod genair;
 pub mod inst;
 
 pub fn main_entry() {
+    let a: Vec<String> = std::env::args().collect();
+    if a.len() >= 3 && a[1] == "--emit-corpus" {
+        let n = fuzzcfg::emit_corpus(&a[2]);
+        println!("wrote {n} seed inputs to {}", a[2]);
+        return;
+    }
     let args = vf_core::parse_args();
     let level = match args.property.as_str() {
         "C02" | "C03" | "C06" => "fault_enumeration",
